@@ -17,7 +17,10 @@ KINDS = ['add', 'add', 'remove', 'dispatch', 'dispatch', 'dispatch', 'drop', 'is
 
 def generate(rng, tier):
     n = 400 if tier == 'quick' else 8000
-    for _ in range(n):
+    for i in range(n):
+        if i % 8 == 5:
+            yield gen_disp.gen_churn(rng)
+            continue
         lines, objs, mapping_of = gen_disp.gen_universe(rng, max_classes=3, max_objs=5, mixins=False)
         lines += gen_disp.gen_reactions(rng, objs, mapping_of, ['drop', 'drop', 'remove', 'dispatch', 'add'],
                                         p=0.4, raise_p=0.05)
